@@ -299,12 +299,13 @@ def sigFromPy(pobj):
         for k, v in pobj.items():
             if vtype is None:
                 vtype = type(v)
+                first_k, first_v = k, v
             elif not isinstance(v, vtype):
                 same = False
         if same:
-            return 'a{' + sigFromPy(k) + sigFromPy(v) + '}'
+            return 'a{' + sigFromPy(first_k) + sigFromPy(first_v) + '}'
         else:
-            return 'a{' + sigFromPy(k) + 'v}'
+            return 'a{' + sigFromPy(first_k) + 'v}'
 
     else:
         raise MarshallingError(
